@@ -16,6 +16,7 @@ import (
 	"strconv"
 	"strings"
 	"sync"
+	"sync/atomic"
 	"time"
 
 	"verifh/gate"
@@ -36,6 +37,7 @@ type worker struct {
 	pos    gate.Pos
 	inOp   bool
 	parked bool
+	exited int32
 }
 
 type sched struct {
@@ -65,6 +67,7 @@ func newSched(n int) *sched {
 		s.wg.Add(1)
 		go func() {
 			defer s.wg.Done()
+			defer atomic.StoreInt32(&w.exited, 1)
 			w.goid = goid()
 			s.byGoid.Store(w.goid, w)
 			close(ready)
@@ -186,11 +189,16 @@ func (s *sched) AwaitWake(i int) gate.Pos {
 }
 
 // goroutineParkedInSleep inspects the runtime's own view (taken with the world
-// stopped): goroutine id is waiting, and the frame that called gopark belongs
-// to pkg/sleep.  Only used as a fallback, see GrantPark.
+// stopped): goroutine id is waiting (not running, runnable or in a syscall),
+// and the frame that called into the runtime belongs to pkg/sleep -- a worker
+// blocked at a gate is blocked in the scheduler's Hook instead.  Only used as a fallback, see GrantPark.
 func goroutineParkedInSleep(id int64) bool {
-	buf := make([]byte, 1<<20)
+	buf := make([]byte, 1<<18)
 	n := runtime.Stack(buf, true)
+	for n == len(buf) { // truncated
+		buf = make([]byte, 4*len(buf))
+		n = runtime.Stack(buf, true)
+	}
 	hdr := "goroutine " + strconv.FormatInt(id, 10) + " ["
 	for _, blk := range strings.Split(string(buf[:n]), "\n\n") {
 		if !strings.HasPrefix(blk, hdr) {
@@ -206,8 +214,12 @@ func goroutineParkedInSleep(id int64) bool {
 		for k := 1; k < len(lines); k += 2 {
 			fns = append(fns, lines[k])
 		}
-		if len(fns) >= 2 && strings.HasPrefix(fns[0], "runtime.gopark(") && strings.Contains(fns[1], "/pkg/sleep.") {
-			return true
+		// the innermost frame outside the runtime (runtime frames are only listed at GOTRACEBACK=system)
+		for _, f := range fns {
+			if strings.HasPrefix(f, "runtime.") {
+				continue
+			}
+			return strings.Contains(f, "/pkg/sleep.")
 		}
 		return false
 	}
@@ -216,9 +228,10 @@ func goroutineParkedInSleep(id int64) bool {
 
 // Abandon releases every worker; hooks become pass-through; force() is called
 // repeatedly (it must make a parked or blocking sleeper finish) until all
-// workers have exited.  hopeless: a worker is parked where nothing can wake it
-// (only mutated code gets there); give up on it quickly and leak it.
-func (s *sched) Abandon(force func(), hopeless bool) {
+// workers have exited.  A worker that is parked inside pkg/sleep without having
+// registered its G (only mutated code gets there) cannot be woken by anybody:
+// it is leaked.  hopeless: the caller already knows that this is the case.
+func (s *sched) Abandon(force func(), registered func() bool, hopeless bool) {
 	s.mu.Lock()
 	s.dead = true
 	s.mu.Unlock()
@@ -233,6 +246,7 @@ func (s *sched) Abandon(force func(), hopeless bool) {
 	}
 	done := make(chan struct{})
 	go func() { s.wg.Wait(); close(done) }()
+	wakes := 0 // times force() found the sleeper parked
 	for i := 0; ; i++ {
 		select {
 		case <-done:
@@ -254,14 +268,29 @@ func (s *sched) Abandon(force func(), hopeless bool) {
 			}
 		}
 		if force != nil {
+			if registered() {
+				wakes++
+			}
 			force()
 		}
-		if i > 50 {
+		if i > 300 {
 			time.Sleep(50 * time.Microsecond)
 		} else {
 			runtime.Gosched()
 		}
-		if i > 200000 || (hopeless && i > 300) {
+		if i%100 == 99 && !hopeless {
+			for _, w := range s.workers {
+				if atomic.LoadInt32(&w.exited) == 0 && !registered() && goroutineParkedInSleep(w.goid) && !registered() {
+					hopeless = true
+				}
+			}
+		}
+		if wakes > 60 {
+			// woken again and again and it still parks: it waits for something that will never
+			// come (only mutated code: e.g. Done waiting for a waker that nobody queues)
+			hopeless = true
+		}
+		if i > 200000 || hopeless {
 			return // leak rather than hang the harness
 		}
 	}
